@@ -21,7 +21,7 @@ func init() {
 		ID: "C17", Harness: "disk",
 		Quick:    tierCfg{Runs: 40000, Procs: 8, WallS: 600},
 		Thorough: tierCfg{Runs: 5000000, Procs: 16, Seeds: 3, WallS: 3300},
-		Rule: "one evaluation = one byte string (valid UTF-8 built from 1/2/3/4-byte characters and the legitimate U+FFFD with lengths around 0, 1, 4095-4097, 8191-8193, 13000 and an alignment shift; zero/one/two BOMs; or one of 8 corruption classes incl. GBK text at a drawn position) put on the simulated disk and decoded through FileStream.ReadAll, ByteStream.ReadAll or end to end through LoadFile(...).Execute of an n-line program whose line i displays i; profile `regular` = full reads, no faults; profile `stream` = the length of every read (full/shorter/1 byte/just short of full) and one EIO are tape decisions. Oracle: utf8.Valid ? runes minus one leading BOM : error; injected EIO => error, never a prefix; fewer displayed lines without error = silently truncated program. distinct_nontrivial = distinct (profile, target, file class, corruption, EIO planned, size class) tuples.",
+		Rule: "one evaluation = one byte string (valid UTF-8 built from 1/2/3/4-byte characters and the legitimate U+FFFD with lengths around 0, 1, 4095-4097, 8191-8193, 13000 and an alignment shift; zero/one/two BOMs; or one of 8 corruption classes incl. GBK text at a drawn position) put on the simulated disk and decoded through FileStream.ReadAll, FileStream.Read(n) called until end of input with a caller-chosen block size n (1-8, 13, 64, 1000, 4095-4097, 8192, 65536), ByteStream.ReadAll or end to end through LoadFile(...).Execute of an n-line program whose line i displays i; profile `regular` = full reads, no faults; profile `stream` = the length of every read (full/shorter/1 byte/just short of full) and one EIO are tape decisions. Oracle: utf8.Valid ? runes minus one leading BOM : error; injected EIO => error, never a prefix; fewer displayed lines without error = silently truncated program. distinct_nontrivial = distinct (profile, target, file class, corruption, EIO planned, size class) tuples.",
 		Assume: []string{
 			"T2 routes os.Open/os.Stat of pkg/io and pkg/exec to the simulated disk; the simulated reads return any length a POSIX read may return (>=1 byte, or 0+EOF at the end)",
 			"the reference decoder is unicode/utf8.Valid + []rune conversion",
